@@ -1,3 +1,930 @@
 import PyaModel.Core.AnnotRoutes
+/-!
+# Proofs/C13 — helper lemmas for the annotation routes and the two signature routes
+
+Sections: (0) induction principles for the nested types; (1) the structural equality tests decide `=`;
+(2) the in-source route without starred members; (3) `allow_unpack` is irrelevant on supported
+expressions; (4) the AST route against the runtime route; (5) def headers.
+-/
 namespace Pya.C13
+
+/-! ### 0. induction principles -/
+
+theorem objInd {P : Obj → Prop}
+    (int : ∀ n, P (.int n)) (bool : ∀ b, P (.bool b)) (str : ∀ s, P (.str s))
+    (bytes : ∀ s, P (.bytes s)) (none : P .none) (flt : ∀ i, P (.flt i)) (cplx : ∀ i, P (.cplx i))
+    (inst : ∀ c i, P (.inst c i)) (cls : ∀ c, P (.cls c))
+    (tuple : ∀ xs, (∀ x ∈ xs, P x) → P (.tuple xs))
+    (list : ∀ xs, (∀ x ∈ xs, P x) → P (.list xs))
+    (set : ∀ xs, (∀ x ∈ xs, P x) → P (.set xs))
+    (fset : ∀ xs, (∀ x ∈ xs, P x) → P (.fset xs))
+    (dict : ∀ ks vs, (∀ x ∈ ks, P x) → (∀ x ∈ vs, P x) → P (.dict ks vs)) : ∀ o, P o
+  | .int n => int n | .bool b => bool b | .str s => str s | .bytes s => bytes s | .none => none
+  | .flt i => flt i | .cplx i => cplx i | .inst c i => inst c i | .cls c => cls c
+  | .tuple xs => tuple xs fun x _ => objInd int bool str bytes none flt cplx inst cls tuple list set fset dict x
+  | .list xs => list xs fun x _ => objInd int bool str bytes none flt cplx inst cls tuple list set fset dict x
+  | .set xs => set xs fun x _ => objInd int bool str bytes none flt cplx inst cls tuple list set fset dict x
+  | .fset xs => fset xs fun x _ => objInd int bool str bytes none flt cplx inst cls tuple list set fset dict x
+  | .dict ks vs => dict ks vs
+      (fun x _ => objInd int bool str bytes none flt cplx inst cls tuple list set fset dict x)
+      (fun x _ => objInd int bool str bytes none flt cplx inst cls tuple list set fset dict x)
+termination_by o => sizeOf o
+
+theorem tyInd {P : Ty → Prop}
+    (any : P .any) (known : ∀ o, P (.known o)) (typed : ∀ c, P (.typed c))
+    (newtype : ∀ n c, P (.newtype n c))
+    (generic : ∀ c args, (∀ t ∈ args, P t) → P (.generic c args))
+    (seq : ∀ c ms, (∀ t ∈ ms, P t) → P (.seq c ms))
+    (many : ∀ t, P t → P (.many t))
+    (union : ∀ ts, (∀ t ∈ ts, P t) → P (.union ts))
+    (subclass : ∀ c, P (.subclass c))
+    (annotated : ∀ t, P t → P (.annotated t))
+    (tvar : ∀ i, P (.tvar i)) : ∀ T, P T
+  | .any => any | .known o => known o | .typed c => typed c | .newtype n c => newtype n c
+  | .generic c args => generic c args fun t _ => tyInd any known typed newtype generic seq many union subclass annotated tvar t
+  | .seq c ms => seq c ms fun t _ => tyInd any known typed newtype generic seq many union subclass annotated tvar t
+  | .many t => many t (tyInd any known typed newtype generic seq many union subclass annotated tvar t)
+  | .union ts => union ts fun t _ => tyInd any known typed newtype generic seq many union subclass annotated tvar t
+  | .subclass c => subclass c
+  | .tvar i => tvar i
+  | .annotated t => annotated t (tyInd any known typed newtype generic seq many union subclass annotated tvar t)
+termination_by T => sizeOf T
+
+theorem annInd {P : AnnExpr → Prop}
+    (cls : ∀ c, P (.cls c)) (none : P .none) (anyT : P .anyT) (newtype : ∀ n c, P (.newtype n c))
+    (bare : ∀ c, P (.bare c))
+    (gen : ∀ o c args, (∀ e ∈ args, P e) → P (.gen o c args))
+    (tup : ∀ o ms, (∀ e ∈ ms, P e) → P (.tup o ms))
+    (tupE : ∀ o, P (.tupE o))
+    (tupV : ∀ o e, P e → P (.tupV o e))
+    (unpack : ∀ e, P e → P (.unpack e))
+    (star : ∀ e, P e → P (.star e))
+    (lit : ∀ os, P (.lit os))
+    (typ : ∀ o e, P e → P (.typ o e))
+    (ann : ∀ e k, P e → P (.ann e k))
+    (final : ∀ e, P e → P (.final e))
+    (classVar : ∀ e, P e → P (.classVar e))
+    (opt : ∀ e, P e → P (.opt e))
+    (union : ∀ es, (∀ e ∈ es, P e) → P (.union es))
+    (bor : ∀ a b, P a → P b → P (.bor a b))
+    (str : ∀ e, P e → P (.str e)) : ∀ e, P e
+  | .cls c => cls c | .none => none | .anyT => anyT | .newtype n c => newtype n c | .bare c => bare c
+  | .gen o c args => gen o c args fun e _ =>
+      annInd cls none anyT newtype bare gen tup tupE tupV unpack star lit typ ann final classVar opt union bor str e
+  | .tup o ms => tup o ms fun e _ =>
+      annInd cls none anyT newtype bare gen tup tupE tupV unpack star lit typ ann final classVar opt union bor str e
+  | .tupE o => tupE o
+  | .tupV o e => tupV o e (annInd cls none anyT newtype bare gen tup tupE tupV unpack star lit typ ann final classVar opt union bor str e)
+  | .unpack e => unpack e (annInd cls none anyT newtype bare gen tup tupE tupV unpack star lit typ ann final classVar opt union bor str e)
+  | .star e => star e (annInd cls none anyT newtype bare gen tup tupE tupV unpack star lit typ ann final classVar opt union bor str e)
+  | .lit os => lit os
+  | .typ o e => typ o e (annInd cls none anyT newtype bare gen tup tupE tupV unpack star lit typ ann final classVar opt union bor str e)
+  | .ann e k => ann e k (annInd cls none anyT newtype bare gen tup tupE tupV unpack star lit typ ann final classVar opt union bor str e)
+  | .final e => final e (annInd cls none anyT newtype bare gen tup tupE tupV unpack star lit typ ann final classVar opt union bor str e)
+  | .classVar e => classVar e (annInd cls none anyT newtype bare gen tup tupE tupV unpack star lit typ ann final classVar opt union bor str e)
+  | .opt e => opt e (annInd cls none anyT newtype bare gen tup tupE tupV unpack star lit typ ann final classVar opt union bor str e)
+  | .union es => union es fun e _ =>
+      annInd cls none anyT newtype bare gen tup tupE tupV unpack star lit typ ann final classVar opt union bor str e
+  | .bor a b => bor a b
+      (annInd cls none anyT newtype bare gen tup tupE tupV unpack star lit typ ann final classVar opt union bor str a)
+      (annInd cls none anyT newtype bare gen tup tupE tupV unpack star lit typ ann final classVar opt union bor str b)
+  | .str e => str e (annInd cls none anyT newtype bare gen tup tupE tupV unpack star lit typ ann final classVar opt union bor str e)
+termination_by e => sizeOf e
+
+/-! ### 1. the structural equality tests decide `=` -/
+
+theorem Obj.eqbL_eq_of (xs ys : List Obj) (h : ∀ x ∈ xs, ∀ y, Obj.eqb x y = true → x = y)
+    (h1 : Obj.eqbL xs ys = true) : xs = ys := by
+  induction xs generalizing ys with
+  | nil => cases ys <;> simp [Obj.eqbL] at h1 ⊢
+  | cons x xs ih =>
+    cases ys with
+    | nil => simp [Obj.eqbL] at h1
+    | cons y ys =>
+      simp only [Obj.eqbL, Bool.and_eq_true] at h1
+      rw [h x (by simp) y h1.1, ih ys (fun z hz => h z (by simp [hz])) h1.2]
+
+theorem Obj.eqb_eq (a : Obj) : ∀ b, Obj.eqb a b = true → a = b := by
+  induction a using objInd with
+  | tuple xs ih | list xs ih | set xs ih | fset xs ih =>
+    intro b h
+    cases b <;> simp only [Obj.eqb, Bool.false_eq_true] at h
+    rw [Obj.eqbL_eq_of _ _ ih h]
+  | dict ks vs ih1 ih2 =>
+    intro b h
+    cases b <;> simp only [Obj.eqb, Bool.false_eq_true, Bool.and_eq_true] at h
+    rw [Obj.eqbL_eq_of _ _ ih1 h.1, Obj.eqbL_eq_of _ _ ih2 h.2]
+  | _ =>
+    intro b h
+    cases b <;> simp_all [Obj.eqb]
+
+theorem Ty.eqbL_eq_of (xs ys : List Ty) (h : ∀ x ∈ xs, ∀ y, Ty.eqb x y = true → x = y)
+    (h1 : Ty.eqbL xs ys = true) : xs = ys := by
+  induction xs generalizing ys with
+  | nil => cases ys <;> simp [Ty.eqbL] at h1 ⊢
+  | cons x xs ih =>
+    cases ys with
+    | nil => simp [Ty.eqbL] at h1
+    | cons y ys =>
+      simp only [Ty.eqbL, Bool.and_eq_true] at h1
+      rw [h x (by simp) y h1.1, ih ys (fun z hz => h z (by simp [hz])) h1.2]
+
+theorem Ty.eqb_eq (a : Ty) : ∀ b, Ty.eqb a b = true → a = b := by
+  induction a using tyInd with
+  | known o =>
+    intro b h
+    cases b <;> simp only [Ty.eqb, Bool.false_eq_true] at h
+    rw [Obj.eqb_eq _ _ h]
+  | generic c as ih | seq c as ih =>
+    intro b h
+    cases b <;> simp only [Ty.eqb, Bool.false_eq_true, Bool.and_eq_true, beq_iff_eq] at h
+    rw [h.1, Ty.eqbL_eq_of _ _ ih h.2]
+  | union as ih =>
+    intro b h
+    cases b <;> simp only [Ty.eqb, Bool.false_eq_true] at h
+    rw [Ty.eqbL_eq_of _ _ ih h]
+  | many t ih | annotated t ih =>
+    intro b h
+    cases b <;> simp only [Ty.eqb, Bool.false_eq_true] at h
+    rw [ih _ h]
+  | _ =>
+    intro b h
+    cases b <;> simp_all [Ty.eqb]
+
+theorem optResSame_eq {x y : Option Res} (h : optResSame x y = true) : x = y := by
+  cases x with
+  | none => cases y <;> simp [optResSame] at h ⊢
+  | some a =>
+    cases y with
+    | none => simp [optResSame] at h
+    | some b =>
+      simp only [optResSame, Res.same, Bool.and_eq_true, beq_iff_eq] at h
+      cases a; cases b
+      simp only at h
+      simp [Ty.eqb_eq _ _ h.1.1, h.1.2, h.2]
+
+/-! ### 2. the in-source route without starred members -/
+
+theorem starUL_false (es : List AnnExpr) :
+    AnnExpr.starUL es = false ↔ ∀ e ∈ es, e.starU = false := by
+  induction es <;> simp_all [AnnExpr.starUL]
+
+theorem finalUL_false (es : List AnnExpr) :
+    AnnExpr.finalUL es = false ↔ ∀ e ∈ es, e.finalU = false := by
+  induction es <;> simp_all [AnnExpr.finalUL]
+
+theorem hasOptL_false (es : List AnnExpr) :
+    AnnExpr.hasOptL es = false ↔ ∀ e ∈ es, e.hasOpt = false := by
+  induction es <;> simp_all [AnnExpr.hasOptL]
+
+theorem squashL_eq_of (es : List AnnExpr) (h : ∀ e ∈ es, squash e = e) : squashL es = es := by
+  induction es with
+  | nil => simp [squashL]
+  | cons e es ih =>
+    simp only [squashL]
+    rw [h e (by simp), ih fun x hx => h x (by simp [hx])]
+
+theorem isStar_starU {e : AnnExpr} (h : e.starU = false) : e.isStar = false := by
+  cases e <;> simp_all [AnnExpr.isStar, AnnExpr.starU]
+
+/-- without a starred member (outside strings) evaluating the annotation as an expression yields
+the annotation itself -/
+theorem squash_id (e : AnnExpr) : e.starU = false → squash e = e := by
+  induction e using annInd with
+  | gen o c args ih | union args ih =>
+    intro h
+    simp only [AnnExpr.starU] at h
+    simp only [squash]
+    rw [squashL_eq_of _ fun e he => ih e he ((starUL_false _).1 h e he)]
+  | tup o ms ih =>
+    intro h
+    simp only [AnnExpr.starU] at h
+    have hm := (starUL_false _).1 h
+    simp only [squash]
+    rw [squashL_eq_of _ fun e he => ih e he (hm e he)]
+    have : ms.any AnnExpr.isStar = false := by
+      simp only [List.any_eq_false]
+      intro x hx
+      simp [isStar_starU (hm x hx)]
+    simp [this]
+  | bor a b iha ihb =>
+    intro h
+    simp only [AnnExpr.starU, Bool.or_eq_false_iff] at h
+    simp [squash, iha h.1, ihb h.2]
+  | star e ih => intro h; simp [AnnExpr.starU] at h
+  | _ => intro h; simp_all [squash, AnnExpr.starU]
+
+/-! ### 3. `allow_unpack` is irrelevant for the AST route on a supported expression that is not
+itself `Unpack[...]` -/
+
+theorem supp_mono (e : AnnExpr) (h : supp false e = true) : supp true e = true := by
+  cases e <;> simp_all [supp]
+
+theorem astEval_au (e : AnnExpr) : supp false e = true → astEval true e = astEval false e := by
+  induction e using annInd with
+  | str e ih => intro h; simp only [supp] at h; simp only [astEval]; exact ih h
+  | unpack e ih => intro h; simp [supp] at h
+  | _ => intro _; simp [astEval]
+
+theorem astEval_au' (e : AnnExpr) (h : supp false e = true) (au : Bool) :
+    astEval false e = astEval au e := by
+  cases au
+  · rfl
+  · exact (astEval_au e h).symm
+
+theorem annotate_idem (t : Ty) : annotate (annotate t) = annotate t := by
+  cases t <;> simp [annotate]
+
+theorem annotateK_add (k k' : Nat) (t : Ty) : annotateK k (annotateK k' t) = annotateK (k' + k) t := by
+  unfold annotateK
+  by_cases hk : k = 0 <;> by_cases hk' : k' = 0 <;> simp_all [annotate_idem]
+
+/-! ### 4. the AST route against the runtime route -/
+
+/-- the two routes agree on `e` for either value of `allow_unpack` -/
+def Agree (e : AnnExpr) : Prop := ∀ au, astEval au e = rtEval au (tnorm (swapOpt e))
+
+theorem agreeL (es : List AnnExpr) (h : ∀ e ∈ es, Agree e) :
+    astEvalL es = rtEvalL (tnormL (swapOptL es)) := by
+  induction es with
+  | nil => simp [astEvalL, rtEvalL, tnormL, swapOptL]
+  | cons e es ih =>
+    simp only [astEvalL, rtEvalL, tnormL, swapOptL]
+    rw [h e (by simp) false, ih fun x hx => h x (by simp [hx])]
+
+theorem agreeM (es : List AnnExpr) (h : ∀ e ∈ es, Agree e) :
+    astEvalM es = rtEvalM (tnormL (swapOptL es)) := by
+  induction es with
+  | nil => simp [astEvalM, rtEvalM, tnormL, swapOptL]
+  | cons e es ih =>
+    simp only [astEvalM, rtEvalM, tnormL, swapOptL]
+    rw [h e (by simp) true, ih fun x hx => h x (by simp [hx])]
+
+theorem suppL_iff (es : List AnnExpr) : suppL es = true ↔ ∀ e ∈ es, supp false e = true := by
+  induction es <;> simp_all [suppL]
+theorem suppM_iff (es : List AnnExpr) : suppM es = true ↔ ∀ e ∈ es, supp true e = true := by
+  induction es <;> simp_all [suppM]
+theorem R13L_false (es : List AnnExpr) :
+    R13_typingDedupL es = false ↔ ∀ e ∈ es, R13_typingDedup e = false := by
+  induction es <;> simp_all [R13_typingDedupL]
+theorem mem_swapOptL {es : List AnnExpr} {x : AnnExpr} (h : x ∈ swapOptL es) :
+    ∃ e ∈ es, x = swapOpt e := by
+  induction es with
+  | nil => simp [swapOptL] at h
+  | cons e es ih =>
+    simp only [swapOptL, List.mem_cons] at h
+    rcases h with h | h
+    · exact ⟨e, by simp, h⟩
+    · obtain ⟨e', he', hx⟩ := ih h
+      exact ⟨e', by simp [he'], hx⟩
+theorem R13L_swap (es : List AnnExpr) (h : R13_typingDedupL (swapOptL es) = false) :
+    ∀ e ∈ es, R13_typingDedup (swapOpt e) = false := by
+  induction es with
+  | nil => simp
+  | cons e es ih =>
+    simp only [swapOptL, R13_typingDedupL, Bool.or_eq_false_iff] at h
+    intro x hx
+    simp only [List.mem_cons] at hx
+    rcases hx with rfl | hx
+    · exact h.1
+    · exact ih h.2 x hx
+
+theorem normOK {args : List AnnExpr} (h : normMatters args = false) (au : Bool) :
+    rtEval au (mkTUnion args) = rtUnionOf args := by
+  simp only [normMatters, Bool.not_eq_false', Bool.and_eq_true] at h
+  cases au
+  · exact optResSame_eq h.1
+  · exact optResSame_eq h.2
+
+/-- **Main lemma.** Outside the exception classes the AST route on `e` computes exactly what the
+runtime route computes on the object `typing` builds for `e` with every `Optional[X]` read as
+`Union[None, X]`. -/
+theorem agree_main (e : AnnExpr) :
+    supp true e = true → e.starU = false → e.finalU = false →
+    R13_typingDedup (swapOpt e) = false → Agree e := by
+  induction e using annInd with
+  | cls c | none | anyT | newtype n c | bare c | tupE o =>
+    intro _ _ _ _ au; simp [astEval, rtEval, swapOpt, tnorm]
+  | gen o c args ih =>
+    intro hs hst hf hr au
+    simp only [supp, Bool.and_eq_true] at hs
+    simp only [AnnExpr.starU] at hst
+    simp only [AnnExpr.finalU] at hf
+    simp only [swapOpt, R13_typingDedup] at hr
+    have := agreeL args fun e he => ih e he (supp_mono e ((suppL_iff _).1 hs.2 e he))
+      ((starUL_false _).1 hst e he) ((finalUL_false _).1 hf e he) (R13L_swap _ hr e he)
+    simp only [astEval, swapOpt, tnorm, rtEval, this]
+  | tup o ms ih =>
+    intro hs hst hf hr au
+    simp only [supp, Bool.and_eq_true] at hs
+    simp only [AnnExpr.starU] at hst
+    simp only [AnnExpr.finalU] at hf
+    simp only [swapOpt, R13_typingDedup] at hr
+    have := agreeM ms fun e he => ih e he ((suppM_iff _).1 hs.1.2 e he)
+      ((starUL_false _).1 hst e he) ((finalUL_false _).1 hf e he) (R13L_swap _ hr e he)
+    simp only [astEval, swapOpt, tnorm, rtEval, this]
+  | tupV o e ih =>
+    intro hs hst hf hr au
+    simp only [supp] at hs
+    simp only [AnnExpr.starU] at hst
+    simp only [AnnExpr.finalU] at hf
+    simp only [swapOpt, R13_typingDedup] at hr
+    simp only [astEval, swapOpt, tnorm, rtEval, ih (supp_mono e hs) hst hf hr false]
+  | typ o e ih =>
+    intro hs hst hf hr au
+    simp only [supp, Bool.and_eq_true] at hs
+    simp only [AnnExpr.starU] at hst
+    simp only [AnnExpr.finalU] at hf
+    simp only [swapOpt, R13_typingDedup] at hr
+    simp only [astEval, swapOpt, tnorm, rtEval, ih (supp_mono e hs.2) hst hf hr false]
+  | unpack e ih =>
+    intro hs hst hf hr au
+    simp only [supp, Bool.and_eq_true] at hs
+    simp only [AnnExpr.starU] at hst
+    simp only [AnnExpr.finalU] at hf
+    simp only [swapOpt, R13_typingDedup] at hr
+    simp only [astEval, swapOpt, tnorm, rtEval, ih (supp_mono e hs.2) hst hf hr false, hst]
+    simp
+  | star e ih => intro _ hst; simp [AnnExpr.starU] at hst
+  | final e ih | classVar e ih => intro _ _ hf; simp [AnnExpr.finalU] at hf
+  | lit os =>
+    intro _ _ _ hr au
+    simp only [swapOpt, R13_typingDedup, litMatters, Bool.not_eq_false'] at hr
+    have h := optResSame_eq hr
+    simp only [swapOpt, tnorm, astEval, rtEval] at h ⊢
+    exact h.symm
+  | ann e k ih =>
+    intro hs hst hf hr au
+    simp only [supp, Bool.and_eq_true] at hs
+    simp only [AnnExpr.starU] at hst
+    simp only [AnnExpr.finalU] at hf
+    simp only [swapOpt, R13_typingDedup] at hr
+    have ihe := ih (supp_mono e hs.2) hst hf hr
+    have hau := astEval_au' e hs.2 au
+    simp only [astEval, swapOpt, tnorm]
+    split
+    · rename_i c k' hX
+      have h1 := ihe au
+      rw [hX] at h1
+      simp only [rtEval] at h1 ⊢
+      rw [hau, h1]
+      cases rtEval au c <;> simp [annotateK_add]
+    · rename_i hX
+      simp only [rtEval]
+      rw [hau, ihe au]
+  | opt e ih =>
+    intro hs hst hf hr au
+    simp only [supp] at hs
+    simp only [AnnExpr.starU] at hst
+    simp only [AnnExpr.finalU] at hf
+    simp only [swapOpt, R13_typingDedup, R13_typingDedupL, Bool.or_eq_false_iff] at hr
+    have ihe := ih (supp_mono e hs) hst hf hr.1.2.1 false
+    simp only [swapOpt, tnorm]
+    rw [normOK hr.2 au]
+    have hn : tnorm AnnExpr.none = AnnExpr.none := by simp [tnorm]
+    simp only [rtUnionOf, tnormL, rtEvalL, hn, astEval, ihe]
+    cases rtEval false (tnorm (swapOpt e)) <;> simp [rtEval, ok]
+  | union es ih =>
+    intro hs hst hf hr au
+    simp only [supp, Bool.and_eq_true] at hs
+    simp only [AnnExpr.starU] at hst
+    simp only [AnnExpr.finalU] at hf
+    simp only [swapOpt, R13_typingDedup, Bool.or_eq_false_iff] at hr
+    have := agreeL es fun e he => ih e he (supp_mono e ((suppL_iff _).1 hs.2 e he))
+      ((starUL_false _).1 hst e he) ((finalUL_false _).1 hf e he) (R13L_swap _ hr.1 e he)
+    simp only [swapOpt, tnorm]
+    rw [normOK hr.2 au]
+    simp only [rtUnionOf, astEval, this]
+  | bor a b iha ihb =>
+    intro hs hst hf hr au
+    simp only [supp, Bool.and_eq_true] at hs
+    simp only [AnnExpr.starU, Bool.or_eq_false_iff] at hst
+    simp only [AnnExpr.finalU, Bool.or_eq_false_iff] at hf
+    simp only [swapOpt, R13_typingDedup, Bool.or_eq_false_iff] at hr
+    have ha := iha (supp_mono a hs.1) hst.1 hf.1 hr.1.1 false
+    have hb := ihb (supp_mono b hs.2) hst.2 hf.2 hr.1.2 false
+    simp only [swapOpt, tnorm]
+    rw [normOK hr.2 au]
+    simp only [rtUnionOf, rtEvalL, astEval, ha, hb]
+    cases rtEval false (tnorm (swapOpt a)) <;> cases rtEval false (tnorm (swapOpt b)) <;> simp
+  | str e ih =>
+    intro _ _ _ _ au
+    simp [astEval, rtEval, swapOpt, tnorm]
+
+/-! ### 5. def headers -/
+
+theorem vis_eq_rt (a : AnnExpr) (au : Bool) (h : a.starU = false) :
+    visEval au a = rtEval au (tnorm a) := by
+  cases a <;> simp only [visEval] <;> (try rw [squash_id _ h])
+  simp [tnorm, rtEval]
+
+theorem zipLongest_nil_right {α β : Type} (A : List α) :
+    zipLongest A ([] : List β) = A.map (fun a => (some a, none)) := by
+  induction A <;> simp_all [zipLongest]
+
+theorem zipLongest_append {α β : Type} (A1 A2 : List α) (B1 B2 : List β) (h : A1.length = B1.length) :
+    zipLongest (A1 ++ A2) (B1 ++ B2) = zipLongest A1 B1 ++ zipLongest A2 B2 := by
+  induction A1 generalizing B1 with
+  | nil => cases B1 <;> simp_all [zipLongest]
+  | cons a A1 ih =>
+    cases B1 with
+    | nil => simp at h
+    | cons b B1 =>
+      simp only [List.cons_append, zipLongest, List.cons.injEq, true_and]
+      exact ih B1 (by simpa using h)
+
+theorem zipLongest_eq_zipWith {α β : Type} (A : List α) (B : List β) (h : A.length = B.length) :
+    zipLongest A B = List.zipWith (fun a b => (some a, some b)) A B := by
+  induction A generalizing B with
+  | nil => cases B <;> simp_all [zipLongest]
+  | cons a A ih =>
+    cases B with
+    | nil => simp at h
+    | cons b B => simp only [zipLongest, List.zipWith_cons_cons, List.cons.injEq, true_and]; exact ih B (by simpa using h)
+
+/-- normal form of a header: the parameters in order with their kind and source-level default
+(index-based alignment, as CPython does it) -/
+def posNF (nPosOnly nPos : Nat) (defaults : List Dflt) : Nat → List PArg → List (Kind × PArg × Option Dflt)
+  | _, [] => []
+  | i, a :: as =>
+    (if i < nPosOnly then Kind.posOnly else Kind.posOrKw, a, posDefault nPos defaults i) ::
+      posNF nPosOnly nPos defaults (i + 1) as
+
+def kwNF : List PArg → List (Option Dflt) → List (Kind × PArg × Option Dflt)
+  | [], _ => []
+  | a :: as, ds => (Kind.kwOnly, a, ds.headD none) :: kwNF as ds.tail
+
+def nf (d : DefArgs) : List (Kind × PArg × Option Dflt) :=
+  posNF d.posonly.length (d.posonly ++ d.args).length d.defaults 0 (d.posonly ++ d.args) ++
+  (match d.vararg with | some a => [(Kind.varPos, a, none)] | none => []) ++
+  kwNF d.kwonly d.kwDefaults ++
+  (match d.kwarg with | some a => [(Kind.varKw, a, none)] | none => [])
+
+def toIParam (future : Bool) (x : Kind × PArg × Option Dflt) : IParam :=
+  ⟨x.2.1.name, x.1, x.2.2, x.2.1.ann.map (annObject future)⟩
+
+theorem inspPositional_nf (future : Bool) (nPos nPosOnly : Nat) (ds : List Dflt) (as : List PArg) (i : Nat) :
+    inspPositional future nPos nPosOnly ds i as = (posNF nPosOnly nPos ds i as).map (toIParam future) := by
+  induction as generalizing i with
+  | nil => simp [inspPositional, posNF]
+  | cons a as ih => simp [inspPositional, posNF, toIParam, ih]
+
+theorem inspKwonly_nf (future : Bool) (as : List PArg) (ds : List (Option Dflt)) :
+    inspKwonly future as ds = (kwNF as ds).map (toIParam future) := by
+  induction as generalizing ds with
+  | nil => simp [inspKwonly, kwNF]
+  | cons a as ih => simp [inspKwonly, kwNF, toIParam, ih]
+
+theorem inspectOf_nf (d : DefArgs) :
+    (inspectOf d).params = (nf d).map (toIParam d.future) := by
+  simp only [inspectOf, nf, List.map_append, inspPositional_nf, inspKwonly_nf]
+  cases d.vararg <;> cases d.kwarg <;> simp [toIParam]
+
+theorem posNF_getElem? (n N : Nat) (ds : List Dflt) (as : List PArg) (j i : Nat) :
+    (posNF n N ds j as)[i]? =
+      as[i]?.map fun a => (if j + i < n then Kind.posOnly else Kind.posOrKw, a, posDefault N ds (j + i)) := by
+  induction as generalizing j i with
+  | nil => simp [posNF]
+  | cons a as ih =>
+    cases i with
+    | zero => simp [posNF]
+    | succ i =>
+      simp only [posNF, List.getElem?_cons_succ, ih]
+      have : j + 1 + i = j + (i + 1) := by omega
+      rw [this]
+
+/-- what `defLoop` reads of one zipped entry -/
+def flatZ (x : Option (Kind × PArg) × Option (Option DVal)) : Option (Kind × PArg) × Option DVal :=
+  (x.1, x.2.getD none)
+
+def nfZ (x : Kind × PArg × Option Dflt) : Option (Kind × PArg) × Option DVal :=
+  (some (x.1, x.2.1), x.2.2.map visitDefault)
+
+theorem zip_pos (po ar : List PArg) (ds : List Dflt) (h : ds.length ≤ po.length + ar.length) :
+    (zipLongest (po.map (fun a => (Kind.posOnly, a)) ++ ar.map (fun a => (Kind.posOrKw, a)))
+      (List.replicate (ar.length + po.length - ds.length) none ++ ds.map (fun x => some (visitDefault x)))).map flatZ
+    = (posNF po.length (po ++ ar).length ds 0 (po ++ ar)).map nfZ := by
+  rw [zipLongest_eq_zipWith _ _ (by simp; omega)]
+  apply List.ext_getElem?
+  intro i
+  simp only [List.getElem?_map, List.getElem?_zipWith, posNF_getElem?, List.getElem?_append,
+    List.length_map, List.getElem?_replicate, List.length_replicate, List.length_append, Nat.zero_add]
+  rw [Nat.add_comm ar.length po.length]
+  generalize hm : po.length + ar.length - ds.length = m
+  have hposD : posDefault (po.length + ar.length) ds i = if i < m then none else ds[i - m]? := by
+    simp [posDefault, hm]
+  rw [hposD]
+  by_cases h1 : i < po.length
+  · have hpo : po[i]? = some po[i] := List.getElem?_eq_getElem h1
+    by_cases h2 : i < m
+    · simp [h1, h2, flatZ, nfZ]
+    · have hd : i - m < ds.length := by omega
+      simp [h1, h2, flatZ, nfZ, List.getElem?_eq_getElem hd]
+  · by_cases h3 : i - po.length < ar.length
+    · have har : ar[i - po.length]? = some ar[i - po.length] := List.getElem?_eq_getElem h3
+      by_cases h2 : i < m
+      · simp [h1, h2, har, flatZ, nfZ]
+      · have hd : i - m < ds.length := by omega
+        simp [h1, h2, har, flatZ, nfZ, List.getElem?_eq_getElem hd]
+    · have har : ar[i - po.length]? = none := List.getElem?_eq_none (by omega)
+      simp [h1, har]
+
+theorem zip_kw (ko : List PArg) (kd : List (Option Dflt)) (h : kd.length = ko.length) :
+    (zipLongest (ko.map (fun a => (Kind.kwOnly, a))) (kd.map (fun x => x.map visitDefault))).map flatZ
+    = (kwNF ko kd).map nfZ := by
+  induction ko generalizing kd with
+  | nil => cases kd <;> simp_all [zipLongest, kwNF]
+  | cons a ko ih =>
+    cases kd with
+    | nil => simp at h
+    | cons x kd =>
+      simp only [List.map_cons, zipLongest, kwNF, List.headD_cons, List.tail_cons, List.cons.injEq]
+      exact ⟨by simp [flatZ, nfZ], ih kd (by simpa using h)⟩
+
+theorem zip_nf (d : DefArgs) (hwf : d.WF = true) :
+    (zipLongest d.kinded d.alignedDefaults).map flatZ = (nf d).map nfZ := by
+  simp only [DefArgs.WF, Bool.and_eq_true, decide_eq_true_eq, beq_iff_eq] at hwf
+  obtain ⟨h1, h2⟩ := hwf
+  have hva : (match d.vararg with | some a => [(Kind.varPos, a)] | none => []).length =
+      (match d.vararg with | some _ => [(none : Option DVal)] | none => []).length := by
+    cases d.vararg <;> rfl
+  have e1 : d.alignedDefaults = d.alignedDefaults ++ [] := by simp
+  unfold DefArgs.kinded
+  rw [e1]
+  unfold DefArgs.alignedDefaults
+  rw [zipLongest_append _ _ _ _ (by simp; cases d.vararg <;> simp <;> omega),
+    zipLongest_append _ _ _ _ (by simp; cases d.vararg <;> simp <;> omega),
+    zipLongest_append _ _ _ _ (by simp; omega)]
+  simp only [List.map_append, nf]
+  rw [zip_pos _ _ _ h1, zip_kw _ _ h2, zipLongest_nil_right]
+  cases d.vararg <;> cases d.kwarg <;> simp [zipLongest, flatZ, nfZ]
+
+/-- `defLoop` on the normal form -/
+def defLoopNF (eval : Bool → AnnExpr → Option Res) (m : Option Cls) :
+    Nat → List (Kind × PArg × Option Dflt) → Option (List SigParam)
+  | _, [] => some []
+  | i, (k, a, df) :: rest =>
+    match defParam eval m i k a (df.map visitDefault), defLoopNF eval m (i + 1) rest with
+    | some p, some ps => some (p :: ps)
+    | _, _ => none
+
+theorem defLoop_nf (eval : Bool → AnnExpr → Option Res) (m : Option Cls)
+    (N : List (Kind × PArg × Option Dflt)) :
+    ∀ (i : Nat) (L : List (Option (Kind × PArg) × Option (Option DVal))),
+      L.map flatZ = N.map nfZ → defLoop eval m i L = defLoopNF eval m i N := by
+  induction N with
+  | nil => intro i L h; cases L <;> simp_all [defLoop, defLoopNF]
+  | cons x N ih =>
+    intro i L h
+    cases L with
+    | nil => simp at h
+    | cons y L =>
+      simp only [List.map_cons, List.cons.injEq] at h
+      obtain ⟨k, a, df⟩ := x
+      obtain ⟨y1, y2⟩ := y
+      simp only [flatZ, nfZ, Prod.mk.injEq] at h
+      obtain ⟨⟨hy1, hy2⟩, hL⟩ := h
+      subst hy1
+      simp only [defLoop, defLoopNF, hy2, ih (i + 1) L hL]
+      cases defParam eval m i k a (Option.map visitDefault df) <;> cases defLoopNF eval m (i + 1) N <;> rfl
+
+/-- `inspLoop` without a `__dunder` positional-or-keyword parameter is a plain map -/
+def inspLoopNF (m : Option Cls) : Nat → List IParam → Option (List SigParam)
+  | _, [] => some []
+  | i, p :: ps =>
+    match inspParam m i p, inspLoopNF m (i + 1) ps with
+    | some sp, some sps => some (sp :: sps)
+    | _, _ => none
+
+theorem inspLoop_nf (m : Option Cls) (ps : List IParam)
+    (h : ∀ p ∈ ps, (p.kind == Kind.posOrKw && isDunderName p.name) = false) :
+    ∀ (i : Nat) (acc : List SigParam), inspLoop m i acc ps = (inspLoopNF m i ps).map (acc ++ ·) := by
+  induction ps with
+  | nil => intro i acc; simp [inspLoop, inspLoopNF]
+  | cons p ps ih =>
+    intro i acc
+    have hp := h p (by simp)
+    simp only [inspLoop, inspLoopNF, hp]
+    cases hq : inspParam m i p with
+    | none => simp
+    | some sp =>
+      simp only [Bool.false_eq_true, if_false]
+      rw [ih (fun q hq => h q (by simp [hq])) (i + 1) (acc ++ [sp])]
+      cases inspLoopNF m (i + 1) ps <;> simp
+
+/-- the in-source reading of an annotation and the runtime reading of the object `inspect` reports
+for it coincide -/
+def AnnOK (fut : Bool) (e : AnnExpr) : Prop := ∀ au, visEval au e = rtEval au (annObject fut e)
+
+/-- per-parameter side condition of the exact agreement: the annotation is read alike by both
+routes; an unannotated parameter has no default and is not `*args` / `**kwargs` -/
+def ParamOK (fut : Bool) (x : Kind × PArg × Option Dflt) : Prop :=
+  (∀ e, x.2.1.ann = some e → AnnOK fut e) ∧
+  (x.2.1.ann = none → x.2.2 = none ∧ x.1 ≠ Kind.varPos ∧ x.1 ≠ Kind.varKw)
+
+theorem dflt_core (df : Option Dflt) :
+    (df.map visitDefault).map DVal.erase =
+      (df.map fun | Dflt.lit o => DVal.known o | Dflt.ellipsis => DVal.knownEllipsis).map DVal.erase := by
+  cases df with
+  | none => rfl
+  | some x => cases x <;> rfl
+
+theorem param_core (fut : Bool) (i : Nat) (x : Kind × PArg × Option Dflt) (h : ParamOK fut x) :
+    (defParam visEval none i x.1 x.2.1 (x.2.2.map visitDefault)).map SigParam.core =
+      (inspParam none i (toIParam fut x)).map SigParam.core := by
+  obtain ⟨k, a, df⟩ := x
+  obtain ⟨h1, h2⟩ := h
+  simp only at h1 h2
+  cases ha : a.ann with
+  | some e =>
+    simp only [defParam, inspParam, toIParam, ha, Option.map_some, h1 e ha (allowUnpackK k)]
+    cases rtEval (allowUnpackK k) (annObject fut e) with
+    | none => simp
+    | some r =>
+      simp [SigParam.core]
+      cases df with
+      | none => rfl
+      | some x => cases x <;> rfl
+  | none =>
+    obtain ⟨hdf, hk1, hk2⟩ := h2 ha
+    subst hdf
+    cases k <;> cases i <;> simp_all [defParam, inspParam, toIParam, translateVararg, SigParam.core]
+
+theorem loops_core (fut : Bool) (N : List (Kind × PArg × Option Dflt)) (h : ∀ x ∈ N, ParamOK fut x) :
+    ∀ i, (defLoopNF visEval none i N).map (·.map SigParam.core) =
+      (inspLoopNF none i (N.map (toIParam fut))).map (·.map SigParam.core) := by
+  induction N with
+  | nil => intro i; simp [defLoopNF, inspLoopNF]
+  | cons x N ih =>
+    intro i
+    obtain ⟨k, a, df⟩ := x
+    have hp := param_core fut i (k, a, df) (h _ (by simp))
+    have hr := ih (fun y hy => h y (by simp [hy])) (i + 1)
+    simp only [defLoopNF, inspLoopNF, List.map_cons]
+    simp only at hp
+    cases h1 : defParam visEval none i k a (Option.map visitDefault df) <;>
+      cases h2 : inspParam none i (toIParam fut (k, a, df)) <;>
+      cases h3 : defLoopNF visEval none (i + 1) N <;>
+      cases h4 : inspLoopNF none (i + 1) (List.map (toIParam fut) N) <;>
+      simp_all
+
+theorem posNF_args (n N : Nat) (ds : List Dflt) (as : List PArg) (j : Nat) :
+    (posNF n N ds j as).map (·.2.1) = as := by
+  induction as generalizing j <;> simp_all [posNF]
+theorem kwNF_args (as : List PArg) (ds : List (Option Dflt)) : (kwNF as ds).map (·.2.1) = as := by
+  induction as generalizing ds <;> simp_all [kwNF]
+theorem nf_args (d : DefArgs) : (nf d).map (·.2.1) = d.allArgs := by
+  simp only [nf, DefArgs.allArgs, List.map_append, posNF_args, kwNF_args]
+  cases d.vararg <;> cases d.kwarg <;> simp
+
+/-- the exact agreement of the two signature routes on the compared components, given that every
+annotation of the header is read alike by the two routes -/
+theorem params_agree_core (d : DefArgs) (hwf : d.WF = true) (hm : d.methodOf = none)
+    (hD : D13_dunderPosOnly d = false) (hR : R13_unannotated d = false)
+    (hann : ∀ a ∈ d.allArgs, ∀ e, a.ann = some e → AnnOK d.future e)
+    (hret : ∀ e, d.returns = some e → AnnOK d.future e) :
+    (fromDef d).map SigOut.core = (fromRuntime d).map SigOut.core := by
+  have hnf := inspectOf_nf d
+  have hok : ∀ x ∈ nf d, ParamOK d.future x := by
+    intro x hx
+    have hmem : x.2.1 ∈ d.allArgs := by
+      rw [← nf_args]; exact List.mem_map_of_mem hx
+    refine ⟨fun e he => hann _ hmem e he, fun hn => ?_⟩
+    simp only [R13_unannotated, hnf, List.any_map, List.any_eq_false] at hR
+    have := hR x hx
+    simp only [Function.comp, toIParam, hn, Option.map_none, Option.isNone_none, Bool.true_and,
+      Bool.or_eq_true, not_or] at this
+    obtain ⟨⟨h1, h2⟩, h3⟩ := this
+    refine ⟨by cases hx2 : x.2.2 <;> simp_all, by intro hk; simp [hk] at h2, by intro hk; simp [hk] at h3⟩
+  have hdun : ∀ p ∈ (nf d).map (toIParam d.future),
+      (p.kind == Kind.posOrKw && isDunderName p.name) = false := by
+    simp only [D13_dunderPosOnly, hnf, List.any_eq_false] at hD
+    intro p hp
+    simpa using hD p hp
+  have hloop := loops_core d.future (nf d) hok 0
+  unfold fromDef fromRuntime fromDefWith fromInspect
+  rw [defLoop_nf visEval d.methodOf (nf d) 0 _ (zip_nf d hwf), hnf,
+    inspLoop_nf _ _ hdun 0 []]
+  simp only [inspectOf, hm] at hloop ⊢
+  cases h1 : defLoopNF visEval none 0 (nf d) <;>
+    cases h2 : inspLoopNF none 0 (List.map (toIParam d.future) (nf d)) <;>
+    simp only [h1, h2, Option.map_none, Option.map_some] at hloop ⊢
+  · simp at hloop
+  · simp at hloop
+  · rename_i ps qs
+    have hpq : ps.map SigParam.core = qs.map SigParam.core := by simpa using hloop
+    cases hr : d.returns with
+    | none => simp [SigOut.core, hpq]
+    | some e =>
+      simp only [Option.map_some, hret e hr false]
+      cases rtEval false (annObject d.future e) <;> simp [SigOut.core, hpq]
+
+/-- without `from __future__ import annotations`: no starred member suffices -/
+theorem annOK_now (e : AnnExpr) (h : e.starU = false) : AnnOK false e := by
+  intro au
+  simp only [annObject, Bool.false_eq_true, if_false]
+  exact vis_eq_rt e au h
+
+theorem swapOpt_id (e : AnnExpr) : e.hasOpt = false → swapOpt e = e := by
+  induction e using annInd with
+  | gen o c args ih | tup o args ih | union args ih =>
+    intro h
+    simp only [AnnExpr.hasOpt] at h
+    simp only [swapOpt]
+    congr 1
+    have : ∀ es : List AnnExpr, (∀ e ∈ es, swapOpt e = e) → swapOptL es = es := by
+      intro es hes
+      induction es with
+      | nil => rfl
+      | cons x xs ihx =>
+        simp only [swapOptL]
+        rw [hes x (by simp), ihx fun y hy => hes y (by simp [hy])]
+    exact this _ fun e he => ih e he ((hasOptL_false _).1 h e he)
+  | bor a b iha ihb =>
+    intro h
+    simp only [AnnExpr.hasOpt, Bool.or_eq_false_iff] at h
+    simp [swapOpt, iha h.1, ihb h.2]
+  | opt e ih => intro h; simp [AnnExpr.hasOpt] at h
+  | _ => intro h; simp_all [swapOpt, AnnExpr.hasOpt]
+
+/-- under `from __future__ import annotations` the function object carries the *text* of the
+annotation, so the inspect route reads it by the AST route -/
+theorem annOK_future (e : AnnExpr) (hs : supp true e = true) (hst : e.starU = false)
+    (hf : e.finalU = false) (hr : R13_typingDedup e = false) (ho : e.hasOpt = false) : AnnOK true e := by
+  intro au
+  simp only [annObject, if_true, rtEval]
+  have hsw := swapOpt_id e ho
+  have := agree_main e hs hst hf (by rw [hsw]; exact hr) au
+  rw [hsw] at this
+  cases e <;> first
+    | (simp only [visEval]; rw [squash_id _ hst]; exact this.symm)
+    | (simp only [visEval, astEval])
+
+
+theorem hasStarL_false (es : List AnnExpr) :
+    AnnExpr.hasStarL es = false ↔ ∀ e ∈ es, e.hasStar = false := by
+  induction es <;> simp_all [AnnExpr.hasStarL]
+
+/-- no starred member anywhere ⇒ none outside strings -/
+theorem hasStar_starU (e : AnnExpr) : e.hasStar = false → e.starU = false := by
+  induction e using annInd with
+  | gen o c args ih | tup o args ih | union args ih =>
+    intro h
+    simp only [AnnExpr.hasStar] at h
+    simp only [AnnExpr.starU]
+    exact (starUL_false _).2 fun e he => ih e he ((hasStarL_false _).1 h e he)
+  | bor a b iha ihb =>
+    intro h
+    simp only [AnnExpr.hasStar, Bool.or_eq_false_iff] at h
+    simp [AnnExpr.starU, iha h.1, ihb h.2]
+  | _ => intro h; simp_all [AnnExpr.starU, AnnExpr.hasStar]
+
+theorem toBindSig_of_core {s t : SigOut} (h : s.core = t.core) :
+    toBindSig s = toBindSig t ∧ s.params.map (·.ann) = t.params.map (·.ann) ∧ s.ret = t.ret := by
+  simp only [SigOut.core, Prod.mk.injEq] at h
+  obtain ⟨hp, hr, _, _⟩ := h
+  refine ⟨?_, ?_, hr⟩
+  · have := congrArg (List.map fun c : String × Kind × Option (Option Obj) × Ty × Nat =>
+      (⟨c.1, c.2.1, c.2.2.1.isSome⟩ : Param)) hp
+    simpa [toBindSig, SigParam.core, Function.comp_def] using this
+  · have := congrArg (List.map fun c : String × Kind × Option (Option Obj) × Ty × Nat => c.2.2.2.1) hp
+    simpa [SigParam.core, Function.comp_def] using this
+
+
+/-! ### 6. a syntactic sufficient condition for the representation class -/
+
+theorem AnnExpr.beqL_eq_of (xs ys : List AnnExpr) (h : ∀ x ∈ xs, ∀ y, AnnExpr.beq x y = true → x = y)
+    (h1 : AnnExpr.beqL xs ys = true) : xs = ys := by
+  induction xs generalizing ys with
+  | nil => cases ys <;> simp [AnnExpr.beqL] at h1 ⊢
+  | cons x xs ih =>
+    cases ys with
+    | nil => simp [AnnExpr.beqL] at h1
+    | cons y ys =>
+      simp only [AnnExpr.beqL, Bool.and_eq_true] at h1
+      rw [h x (by simp) y h1.1, ih ys (fun z hz => h z (by simp [hz])) h1.2]
+
+theorem AnnExpr.beq_eq (a : AnnExpr) : ∀ b, AnnExpr.beq a b = true → a = b := by
+  induction a using annInd with
+  | gen o c args ih =>
+    intro b h
+    cases b <;> simp only [AnnExpr.beq, Bool.false_eq_true, Bool.and_eq_true, beq_iff_eq] at h
+    rw [h.1.1, h.1.2, AnnExpr.beqL_eq_of _ _ ih h.2]
+  | tup o args ih =>
+    intro b h
+    cases b <;> simp only [AnnExpr.beq, Bool.false_eq_true, Bool.and_eq_true, beq_iff_eq] at h
+    rw [h.1, AnnExpr.beqL_eq_of _ _ ih h.2]
+  | union args ih =>
+    intro b h
+    cases b <;> simp only [AnnExpr.beq, Bool.false_eq_true] at h
+    rw [AnnExpr.beqL_eq_of _ _ ih h]
+  | bor x y ihx ihy =>
+    intro b h
+    cases b <;> simp only [AnnExpr.beq, Bool.false_eq_true, Bool.and_eq_true] at h
+    rw [ihx _ h.1, ihy _ h.2]
+  | tupV o e ih | typ o e ih =>
+    intro b h
+    cases b <;> simp only [AnnExpr.beq, Bool.false_eq_true, Bool.and_eq_true, beq_iff_eq] at h
+    rw [h.1, ih _ h.2]
+  | ann e k ih =>
+    intro b h
+    cases b <;> simp only [AnnExpr.beq, Bool.false_eq_true, Bool.and_eq_true, beq_iff_eq] at h
+    rw [h.1, ih _ h.2]
+  | unpack e ih | star e ih | final e ih | classVar e ih | opt e ih | str e ih =>
+    intro b h
+    cases b <;> simp only [AnnExpr.beq, Bool.false_eq_true] at h
+    rw [ih _ h]
+  | _ =>
+    intro b h
+    cases b <;> simp_all [AnnExpr.beq]
+
+theorem Obj.eqbL_refl_of (xs : List Obj) (h : ∀ x ∈ xs, Obj.eqb x x = true) : Obj.eqbL xs xs = true := by
+  induction xs with
+  | nil => simp [Obj.eqbL]
+  | cons x xs ih =>
+    simp only [Obj.eqbL, Bool.and_eq_true]
+    exact ⟨h x (by simp), ih fun y hy => h y (by simp [hy])⟩
+
+theorem Obj.eqb_refl (a : Obj) : Obj.eqb a a = true := by
+  induction a using objInd <;> simp_all [Obj.eqb, Obj.eqbL_refl_of]
+
+theorem Ty.eqbL_refl_of (xs : List Ty) (h : ∀ x ∈ xs, Ty.eqb x x = true) : Ty.eqbL xs xs = true := by
+  induction xs with
+  | nil => simp [Ty.eqbL]
+  | cons x xs ih =>
+    simp only [Ty.eqbL, Bool.and_eq_true]
+    exact ⟨h x (by simp), ih fun y hy => h y (by simp [hy])⟩
+
+theorem Ty.eqb_refl (a : Ty) : Ty.eqb a a = true := by
+  induction a using tyInd <;> simp_all [Ty.eqb, Ty.eqbL_refl_of, Obj.eqb_refl]
+
+theorem optResSame_refl (x : Option Res) : optResSame x x = true := by
+  cases x <;> simp [optResSame, Res.same, Ty.eqb_refl]
+
+theorem normMatters_plain {args : List AnnExpr} (h : AnnExpr.beq (mkTUnion args) (.union args) = true) :
+    normMatters args = false := by
+  have he := AnnExpr.beq_eq _ _ h
+  simp only [normMatters, he, rtEval, rtUnionOf, optResSame_refl, Bool.and_self, Bool.not_true]
+
+theorem dedupObjsGo_nodup (acc os : List LitObj) (h : (acc ++ os).Nodup) : dedupObjsGo acc os = acc ++ os := by
+  induction os generalizing acc with
+  | nil => simp [dedupObjsGo]
+  | cons o os ih =>
+    have hn : acc.contains o = false := by
+      simp only [List.contains_eq_mem, decide_eq_false_iff_not]
+      intro hm
+      have := List.nodup_append.1 h
+      exact this.2.2 o hm o (by simp) rfl
+    simp only [dedupObjsGo, hn, Bool.false_eq_true, if_false]
+    rw [ih (acc ++ [o]) (by simpa using h)]
+    simp
+
+theorem unite_single_known (o : Obj) : unite [.known o] = .known o := by
+  simp [unite, flatten1, dedup, dictMem]
+
+theorem litMatters_nodup {os : List LitObj} (h : os.Nodup) : litMatters os = false := by
+  have hd : dedupObjs os = os := by
+    simpa [dedupObjs] using dedupObjsGo_nodup [] os (by simpa using h)
+  simp only [litMatters, hd, Bool.not_eq_false']
+  cases os with
+  | nil => simp [rtEval, astEval, optResSame_refl]
+  | cons o os =>
+    cases os with
+    | nil => simp [rtEval, astEval, ok, unite_single_known, optResSame, Res.same, Ty.eqb_refl]
+    | cons o' os => simp [rtEval, astEval, optResSame_refl]
+
+theorem plainUnionsL_iff (es : List AnnExpr) :
+    plainUnionsL es = true ↔ ∀ e ∈ es, plainUnions e = true := by
+  induction es <;> simp_all [plainUnionsL]
+
+/-- where `typing` has nothing to normalise, its normalisation cannot matter -/
+theorem plain_R13 (e : AnnExpr) : plainUnions e = true → R13_typingDedup e = false := by
+  induction e using annInd with
+  | gen o c args ih | tup o args ih =>
+    intro h
+    simp only [plainUnions] at h
+    simp only [R13_typingDedup]
+    exact (R13L_false _).2 fun e he => ih e he ((plainUnionsL_iff _).1 h e he)
+  | union args ih =>
+    intro h
+    simp only [plainUnions, Bool.and_eq_true] at h
+    simp only [R13_typingDedup, Bool.or_eq_false_iff]
+    exact ⟨(R13L_false _).2 fun e he => ih e he ((plainUnionsL_iff _).1 h.1 e he), normMatters_plain h.2⟩
+  | opt e ih =>
+    intro h
+    simp only [plainUnions, Bool.and_eq_true] at h
+    simp only [R13_typingDedup, Bool.or_eq_false_iff]
+    exact ⟨ih h.1, normMatters_plain h.2⟩
+  | bor a b iha ihb =>
+    intro h
+    simp only [plainUnions, Bool.and_eq_true] at h
+    simp only [R13_typingDedup, Bool.or_eq_false_iff]
+    exact ⟨⟨iha h.1.1, ihb h.1.2⟩, normMatters_plain h.2⟩
+  | lit os =>
+    intro h
+    simp only [plainUnions, decide_eq_true_eq] at h
+    simp only [R13_typingDedup]
+    exact litMatters_nodup h
+  | _ => intro h; simp_all [plainUnions, R13_typingDedup]
+
 end Pya.C13
